@@ -127,7 +127,9 @@ Qed.
 Lemma send_heartbeat_forced_sh c r i : 0 <= c -> time_ok c r -> vi (rn r) i ->
   send_heartbeat_forced (shift_rnode c r) i = lift_res c (send_heartbeat_forced r i) /\ time_ok c (fst (send_heartbeat_forced r i)).
 Proof.
-  intros Hc H V. unfold send_heartbeat_forced. cbv zeta. rewrite chk_dev_sh. pose proof (tok_chk_dev c r i H) as H1.
+  intros Hc H V. unfold send_heartbeat_forced. rewrite shr_rn, shn_active.
+  destruct (is_active_node (rn r)); cbn [negb]; [|split; [reflexivity|exact H]].
+  cbv zeta. rewrite chk_dev_sh. pose proof (tok_chk_dev c r i H) as H1.
   pose proof (vi_chk_dev r i i V) as V1. set (r1 := chk_dev r i) in *.
   rewrite shr_dev_src by exact V1. rewrite get_devx_sh by (apply (tok_vx c); assumption). cbn [shift_devx x_hb shift_ss ss_period].
   apply send_step_sh; assumption.
